@@ -7,9 +7,14 @@ COMMON_TRUSTED = [
     "no extraction: cases are evaluated inside Coq by vm_compute",
 ]
 
+NOT_APPLICABLE = {}
+
 PROPS = {
     "C18": {
         "harness": "c18",
+        "technique": "Coq proof over gofrag-translated window conditions + differential correspondence",
+        "level_text": "Theorems (all instants, all optional-bound windows, all shard lists) that each of the three membership tests is exactly start <= t < limit, that routing coincides with admission, and that accepted shard lists are exactly the contiguous ones and route every instant of their span to one shard; the three conditions are re-translated from the Go source on every run, the loop/constructor glue is tied by differential correspondence at boundary instants.",
+        "level_note": "Trusted: Coq kernel, gofrag translator, time.Time comparison semantics, protobuf timestamp conversion; glue code (IndexByDate loop, NewTemporalLogClient order of checks) is hand-modelled and validated by correspondence only.",
         "gen_units": ["Windows.v"],
         "coq_deps": ["Temporal/WindowProofs"],
         "case_lib": "Temporal/WindowCase",
